@@ -349,6 +349,7 @@ def check(ctx):
             o.fail(P, s.ctx, s.node, 'a reservation object is created outside reserve_resources (it would hold amounts that were never taken)', file=s.mod.path, line=s.line)
         else:
             o.witness('ctor')
+    obs.append(dv.falsy_default_obligation(ctx, 'C09.9', ['ResourceManager', 'ReservedResources'], 'amounts are the numbers given (0 is a legal amount)'))
     return obs
 
 
